@@ -279,6 +279,14 @@ def euler(ai, bi, select, b1950=False, dtype="f8"):
             dtype=dtype,
         )
 
+    # The tabulated sines and cosines are rounded to 11 digits, so
+    # stheta**2 + ctheta**2 differs from 1 by a few 1e-12.  At the pole of the
+    # target system the sine of the new latitude equals that sum, which puts
+    # the pole ~1e-4 degrees away from latitude 90; renormalize the pairs
+    norm = np.sqrt(stheta * stheta + ctheta * ctheta)
+    stheta = stheta / norm
+    ctheta = ctheta / norm
+
     # zero offset
     i = select - 1
     a = ai * D2R - phi[i]
